@@ -90,6 +90,16 @@ class JsonSchemaParser:
         for key, val in schema.items():
             if key in constant.CONSTRAINTS_MAP:
                 constraints[constant.CONSTRAINTS_MAP[key]] = val
+        # JSON Schema allows an inclusive and an exclusive bound together and integer / float bounds mixed,
+        # a Rule does not: keep the stronger bound of each side and give the bounds one numeric type
+        if 'gt' in constraints and 'ge' in constraints:
+            constraints.pop('ge' if constraints['gt'] >= constraints['ge'] else 'gt')
+        if 'lt' in constraints and 'le' in constraints:
+            constraints.pop('le' if constraints['lt'] <= constraints['le'] else 'lt')
+        bounds = [k for k in ('gt', 'ge', 'lt', 'le') if k in constraints and not isinstance(constraints[k], bool)]
+        if any(isinstance(constraints[k], float) for k in bounds):
+            for k in bounds:
+                constraints[k] = float(constraints[k])
         return constraints
 
     def parse_field(self, schema: dict,
